@@ -528,6 +528,19 @@ Section DispatchProofs.
     - apply (sse2_equiv add zero 32 K P); auto. lia.
     - apply avx2_equiv; auto.
   Qed.
+  (* the dispatcher as compiled on arm / aarch64 hosts (16 columns, arms Generic / Neon) *)
+  Theorem dispatch_arm_equiv (table : neon_arm -> neon_kernel_id) csn pssm ar q a b old :
+    lane4_layout_ok csn = true ->
+    mat_wf 16 K (sq_mat q) -> pssm_wf K pssm -> sc_wf 16 old ->
+    1 <= length pssm -> length pssm - 1 <= sq_wrap q ->
+    res_equiv (dispatch_rows_into_arm add zero table csn pssm ar q a b old)
+              (generic_rows_into add zero 16 pssm q a b old).
+  Proof.
+    intros Hcn Hm Hp Hw HM Hwrap. unfold dispatch_rows_into_arm.
+    destruct (table ar).
+    - apply res_equiv_refl. apply generic_rows_into_ok_or_panic.
+    - apply (neon_equiv add zero 16 K P); auto. lia.
+  Qed.
 End DispatchProofs.
 
 (* full scans: Score::score through any score_rows_into *)
